@@ -59,6 +59,9 @@ class Source(LenaSequence):
 
         if len(args) > 1:
             self._tail = Sequence(*(self._data_seq[1:]))
+            # the tail contains only data elements, and it has set
+            # their context without the static context of this Source
+            self._init_context()
         else:
             self._tail = ()
 
